@@ -2,6 +2,7 @@
    Only property theorems here. All schedules, all item / worker counts, all user code. *)
 From Flyt Require Import Base Script FlowTable Engine BatchConc EngineCorr EngineFacts
      ItemMon BatchConcInv BatchConcItems BatchConcStop BatchConcLive.
+From Flyt Require Import C11Glue.
 
 (* Once the context is cancelled (from a callback or by the environment: TCancel may appear
    anywhere in the schedule), whatever the rest of the schedule, item i gains no exec attempt
@@ -29,12 +30,7 @@ Theorem C11_terminates_no_deadlock :
     forall s0 sched,
       let s := brun o c nd items stopmode qcap (binit items nworkers s0) sched in
       mpc s <> MRet -> exists t, t <> TCancel /\ bstep o c nd items stopmode qcap s t <> None.
-Proof.
-  intros o c nd items stopmode nworkers qcap Hw Hq s0 sched s Hm.
-  apply (no_deadlock_lemma o c nd items stopmode nworkers qcap Hw Hq); auto.
-  - apply brun_inv. apply binit_inv.
-  - apply brun_exit. apply binit_exit.
-Qed.
+Proof. exact C11_terminates_no_deadlock_glue. Qed.
 Print Assumptions C11_terminates_no_deadlock.
 
 (* never fakes success: every item that was not executed carries an error in its slot
